@@ -360,6 +360,44 @@ pub fn run(tier: Tier) -> i32 {
         extra: vec![],
     });
 
+    // size histories: the estimators for n1 and then for n2 on a freshly spawned thread, every ordered
+    // pair of a size ladder (constants such as harmonic numbers or log-factorials that are tabulated or
+    // cached on demand must not depend on which sizes were asked for first)
+    {
+        let sizes: [usize; 10] = [5, 40, 128, 129, 170, 171, 172, 256, 400, 700];
+        let mut pairs: Vec<(usize, usize)> = Vec::new();
+        for a in sizes {
+            for b in sizes {
+                pairs.push((a, b));
+            }
+        }
+        let res = par_map(pairs.len(), |i| {
+            let (n1, n2) = pairs[i];
+            std::thread::spawn(move || {
+                let _ = estimators_1d(n1);
+                let (e, v) = estimators_1d(n2);
+                (e, v.into_iter().take(2).map(|(k, w, j)| (format!("{k}|after-size-{}", if n1 < n2 { "smaller" } else if n1 > n2 { "larger" } else { "equal" }), format!("on a fresh thread after the estimators for n = {n1}: {w}"), j)).collect::<Vec<Viol>>())
+            })
+            .join()
+            .unwrap_or((0, vec![]))
+        });
+        let mut ev = 0;
+        for (e, v) in res {
+            ev += e;
+            for (k, w, j) in v {
+                rep.violation(k, w, j);
+            }
+        }
+        rep.part(Part {
+            name: "lib: size histories on fresh threads".into(),
+            evaluations: ev,
+            nontrivial: ev,
+            note: format!("every ordered pair of n in {sizes:?}: all 1-D estimator checks for the first size, then for the second, on a newly spawned thread"),
+            exhaustive: true,
+            extra: vec![],
+        });
+    }
+
     // (b) genotype level
     let mut cases: Vec<GenoCase> = Vec::new();
     for d in 1..=3 {
